@@ -321,6 +321,55 @@ TWINS["cwe467"] = [("check_for_pointer_sized_arg", "c18.sizeof")]
 PROPS["C18"]["default_twins"] = ["c18.umask", "c18.sizeof"]
 PROPS["C18"]["sweep_twins"] = ["c18.umask", "c18.sizeof"]
 
+# ---- C16 (units callsites*, round 3) -----------------------------------------------------------------------------
+TWINS["callsites"] = [("get_calls_to_symbols", "c16.dangerous"), ("find_symbol", "c16.ioctl")]
+TWINS["callsites_676"] = [("", "c16.dangerous")]
+TWINS["callsites_782"] = [("", "c16.ioctl")]
+TWINS["callsites_426"] = [("", "c16.searchpath")]
+TWINS["callsites_332"] = [("", "c16.prng")]
+PROPS["C16"] = {
+    "units": ["callsites", "callsites_676", "callsites_782", "callsites_426", "callsites_332"],
+    "level_text": (
+        "The four check_cwe functions of CWE-676 / 782 / 426 / 332 and their helpers (symbol_utils::get_calls_to_symbols, find_symbol; cwe_676::resolve_symbols, "
+        "get_calls, generate_cwe_warnings; cwe_782::handle_sub, generate_cwe_warning; the CweWarning builder of utils/log.rs) are extracted verbatim from /repo on "
+        "each run (with the real Project / Program / Sub / Blk / Jmp / ExternSymbol / AnalysisResults types) and verified by Verus for EVERY program and "
+        "configuration: 676 reports, in program order, exactly one warning per position (function, block, jump) holding a direct call to an extern symbol whose "
+        "name is on the configured list, carrying that call's address, tid and function name; 782 the same for the symbol found for \"ioctl\"; 426 reports exactly "
+        "the functions that contain a direct call to the symbol found for \"system\" and a direct call to a symbol found for some configured name (none when "
+        "either is absent); 332 reports as many warnings as there are configured pairs, in order and with multiplicity, whose generator is imported while the "
+        "initializer is not. find_symbol is proved to return the first (least key) extern symbol with the given name, None iff there is none."),
+    "level_note": (
+        "'Imported symbol' is read as the code reads it, stated exactly: the BTreeMap key in 676, the tid field of the FIRST symbol with that name in 782 / 426. "
+        "For programs whose extern symbols have pairwise different names this is the property's reading; for two symbols with the same name 782 and 426 look "
+        "only at the first one -- open findings F1 (known_findings.txt; the two failing programs are re-run on every check and printed as KNOWN-FINDING). 332: only "
+        "the NUMBER of warnings is proved (the pair's names occur only in the format! text, which is unspecified); the bounded twin c16.prng compares the texts. "
+        "Not decided: name / version / description text of the warnings; a configuration that fails to deserialize diverges (R5-style). Trusted: vstd's HashMap / "
+        "BTreeMap specifications under obeys_cmp::<Tid>, obeys_key_model::<&Tid>, obeys_key_model::<&String>; four reference-key lookup axioms (a HashMap<&K, V> / "
+        "HashSet<&K> looked up with a &K finds the equal key), String extensionality, &str == String and String::from(&str) specifications, determinism of "
+        "format!(tid) and of serde deserialisation (uninterpreted functions), the R9 substitutions listed in the unit headers (named ghost iterators; values() -> "
+        "iter(); find(closure with side effect) -> flag loop evaluating the closure body verbatim up to the first true; collect chains -> explicit loops with the "
+        "closure bodies verbatim), CweModule / CWE_MODULE restated without the function pointer."),
+    "design_ref": "DESIGN.md section 13 (C16)",
+    "default_twins": ["c16.dangerous", "c16.ioctl", "c16.searchpath", "c16.prng"],
+    "sweep_twins": ["c16.dangerous", "c16.ioctl", "c16.searchpath", "c16.prng"],
+    "not_covered": [
+        "warning name / version / description text",
+        "cwe_332: identity of the reported pair (only in the text); bounded twin c16.prng",
+        "panic on a malformed configuration",
+        "symbol_utils::get_symbol_map, get_symbol_map_fast, get_callsites",
+        "CweModule.run / module registration",
+    ],
+    "assumptions": [
+        "HYPOTHESES obeys_cmp::<Tid>(), obeys_key_model::<&Tid>(), obeys_key_model::<&String>()",
+        "shim/callsites.rs: axiom_cs_{contains_ref_key, maps_ref_key_to_value, set_contains_ref_key, sets_ref_key_to_key}, axiom_cs_string_ext",
+        "assume_specification for <&str as PartialEq<String>>::eq and <String as From<&str>>::from; ToString::to_string without postcondition",
+        "cs_tid_fmt / verif_format_tid (format! of a Tid is a deterministic function of it); cs_parsed / verif_from_value_or_panic (serde)",
+        "R9 substitutions listed in the unit headers; CweModule and the four CWE_MODULE statics restated",
+        "everything imported with units callgraph_build / callgraph / bitvector (IR data model)",
+        "64-bit target (usize = u64)",
+    ],
+}
+
 
 def twin_for(unit, label):
     for frag, twin in TWINS.get(unit, []):
